@@ -10,6 +10,14 @@ claimed = {
          "Decides the structural mechanism of atomicity on every path and call site: all persistent effects reachable from the six store/revert/finalise closures go through the one batch; every db.Helper implementation commits only when the callback returned nil; direct-store writers form a frozen table; in-memory state mutated inside a closure must be compensated on commit failure (today it is not: known finding F3). It does not decide the database image after a crash (Pebble, fsync) nor multi-batch pruning.",
          "trusted: go/types, go/ssa, VTA call graph (x/tools v0.50.0); reflection/unsafe/cgo not followed; db backends (db/memory, db/pebble*, db/remote) are the trusted primitives; assumption triedb.New(nil) re-checked each run",
          "DESIGN.md §5 C05"),
+ "C03": ("sentinel-error discipline (contradiction rule) over resolved call sites; bucket×diff-section pairing from resolved bucket effects; term comparison of key builders; dominance of retention/deployment gates",
+         "Decides the plumbing of the history encodings on every call site: each caller of a function that may return the 'no log entry' sentinel classifies it; every history bucket × diff section logged by Update is un-logged by Revert; history writer keys extend the reader prefixes by an 8-byte big-endian block number; historical views pass the retention gate and the deployment-height probe. It does not decide the off-by-one semantics of valueAt (that the value returned is the value as of block n).",
+         "trusted: go/types, go/ssa, VTA call graph; hand-confirmed tables of sentinel-returning functions and key helpers (a rename makes the rule UNDECIDED, never silently green)",
+         "DESIGN.md §5 C03"),
+ "C04": ("resolved bucket-effect sets (context-sensitive backward slicing of db keys) over the call graph, Store closure vs RevertHead closure; dominance for root authentication; field-store ownership",
+         "Decides that revert is the structural inverse of store at bucket granularity for both state backends (every bucket Put by the Store closure is Deleted/range-deleted by the RevertHead closure inside the same batch), that the reverse diff can be built for every entry (sentinel rule), that Revert authenticates the root before mutating and before persisting, and that the in-memory running filter is only written by its forward/inverse steps. It does not decide value-level observational equality or fork convergence.",
+         "trusted: go/types, go/ssa, VTA; key→bucket resolution follows db.Bucket.Key, typed buckets, nodeKeyByPath, legacy trie prefixes; unresolved Put keys fail the rule",
+         "DESIGN.md §5 C04"),
 }
 pending = {}  # id -> reason (properties not claimed)
 props = [json.loads(l) for l in open(os.path.join(V, "properties.jsonl"))]
